@@ -3,7 +3,7 @@ M1-M7) — effect and pairing rules over spydrnet/ir, layering rule over everyth
 import ast
 import re
 
-from ..core import AnalysisError, norm, short, walk_local
+from ..core import parent_chain, AnalysisError, norm, short, walk_local
 from ..kinds import (RELATIONS, FIELD_OWNER, FIELD_TYPES, CONCRETE, kinds_of, typer_for, field_class)
 from ..pairing import O2_RELATIONS, VALID_EXIT, expand_defs, Pairing, with_def_consequences, flag_consequences
 from ..typestate import is_public_entry, is_clone_family, classify_set
@@ -1094,6 +1094,21 @@ def _m2_m6(ctx, R):
                 prev_loops = [s for s in sibs[:idx] if isinstance(s, ast.For) and ("pins" in norm(s.iter))]
                 scope = prev_loops[-1].body if prev_loops else []
                 scope_nodes = [x for s in scope for x in ast.walk(s)]
+            # the deletion itself happens for every pin the loop visits: it is not under a test inside the loop body (it slipped under
+            # `if wire:` once — only connected outer pins were dropped), unless that test asks whether the entry is there at all
+            if ev.op == "delitem":
+                guards = []
+                for p_ in parent_chain(stmt):
+                    if (loops and p_ is loops[0]) or p_ is f.node:
+                        break
+                    if isinstance(p_, ast.If) and not any(isinstance(c_, ast.Compare) and isinstance(c_.ops[0], (ast.In, ast.NotIn)) and "_pins" in norm(c_) or
+                                                        (isinstance(c_, ast.Compare) and isinstance(c_.ops[0], (ast.In, ast.NotIn)) and ".pins" in norm(c_))
+                                                        for c_ in ast.walk(p_.test)):
+                        guards.append(p_)
+                if guards:
+                    R.bad("M2", "%s|conditional delete" % f.key, f.loc(stmt),
+                          "%s removes the outer pin from the instance's pin map only when `%s`: for the other pins of the loop the entry stays in "
+                          "instance.pins, keyed by an inner pin the definition no longer has" % (f.qualname, short(guards[0].test, 40)))
             disc = [x for x in scope_nodes if isinstance(x, ast.Call) and isinstance(x.func, ast.Attribute) and x.func.attr == "disconnect_pin"]
             nulls = {t_.attr for x in scope_nodes if isinstance(x, ast.Assign) and isinstance(x.value, ast.Constant) and x.value.value is None
                      for t_ in x.targets if isinstance(t_, ast.Attribute) and t_.attr in ("_instance", "_inner_pin")}
